@@ -357,10 +357,11 @@ class TCPPacketGenerator(Device, OutMixIn):
                 f"Congestion window size = {self.congestion_control.cwnd:.1f}, last ack = {ackno}."
             )
 
-            if ack.packet_id in self.timers:
-                self.timers[ack.packet_id].stop()
-                del self.timers[ack.packet_id]
-                del self.sent_packets[ack.packet_id]
+            # the ACK is cumulative: every segment below it is delivered
+            for seqno in [s for s in self.timers if s < ackno]:
+                self.timers[seqno].stop()
+                del self.timers[seqno]
+                del self.sent_packets[seqno]
 
             self.cwnd_avaialbe.put(True)
 
